@@ -10,7 +10,7 @@ from . import codecs as C
 from . import codec_contracts as K
 
 TRUSTED = ['S-PDU table (units/codecs.py) transcribed from MODBUS Application Protocol v1.1b3']
-ASSUMPTIONS = ['file-record (FC 20/21) and device-identification response codecs: bounded stand-in (see C01/bounded.* units)']
+ASSUMPTIONS = ['file-record (FC 20/21) and device-identification response codecs: bounded units (<= 3 record groups / objects, loops unrolled), never counted as proved']
 
 SDEC, CDEC = 'pymodbus.factory.ServerDecoder', 'pymodbus.factory.ClientDecoder'
 CONTRACTS = (K.PackBitstring(), K.UnpackBitstring())
